@@ -31,10 +31,15 @@ type cfgEnt struct {
 }
 
 type cfgRow struct {
-	F    []string
-	Err  bool
-	Ents []cfgEnt
-	Tags []string
+	F     []string
+	Err   bool
+	Ents  []cfgEnt
+	Tags  []string
+	Multi bool // several headers: judged per variable (key -> ordered values), not as one global sequence
+	Bykey []struct {
+		K  []string
+		Vs [][]string
+	}
 }
 
 // rendering of byte classes; variant 0 canonical
@@ -168,10 +173,10 @@ func cfgSameEnts(a, b []cfgKV, strictNoValue bool) (bool, string) {
 var cfgTagOrder = []string{
 	"junk-after-key", "junk-in-header", "junk-after-subsection", "newline-in-subsection", "newline-in-header", "eof-in-header",
 	"unknown-escape", "newline-in-quotes", "junk-at-line-start", "bad-header",
-	"continuation-at-eof", "entry-on-header-line", "dotted-section", "section-digit", "no-section",
+	"subsection-name-reused", "subsection-reopened", "continuation-at-eof", "entry-on-header-line", "dotted-section", "section-digit", "no-section",
 	"subsection-escape", "subsection-space", "subsection-case", "escape-n", "escape-t", "escape-self", "continuation",
 	"comment-char-in-quotes", "space-in-quotes", "quote", "comment-after-value", "inner-space", "trailing-space", "leading-space",
-	"valueless", "key-digit", "key-case", "section-case", "subsection", "comment-line",
+	"plain-section-between", "two-subsections", "valueless", "key-digit", "key-case", "section-case", "subsection", "comment-line",
 }
 
 func cfgTopTag(tags []string) string {
@@ -188,6 +193,35 @@ func cfgTopTag(tags []string) string {
 		return tags[0]
 	}
 	return "plain"
+}
+
+// cfgSameByKey compares two entry lists per variable: the same keys, each with the same ordered values.  go-git
+// groups options by section, so across several headers only the per-variable order is meaningful.
+func cfgSameByKey(a, b []cfgKV, strictNoValue bool) (bool, string) {
+	group := func(e []cfgKV) map[string][]cfgKV {
+		m := map[string][]cfgKV{}
+		for _, x := range e {
+			m[x.Key] = append(m[x.Key], x)
+		}
+		return m
+	}
+	ma, mb := group(a), group(b)
+	for k := range ma {
+		if _, ok := mb[k]; !ok {
+			return false, "variable-under-wrong-key"
+		}
+	}
+	for k := range mb {
+		if _, ok := ma[k]; !ok {
+			return false, "variable-under-wrong-key"
+		}
+	}
+	for k := range ma {
+		if ok, why := cfgSameEnts(ma[k], mb[k], strictNoValue); !ok {
+			return false, why
+		}
+	}
+	return true, ""
 }
 
 func init() { rep.Register("c48", c48) }
@@ -257,7 +291,16 @@ func c48Read(r *rep.Report, rnd *rand.Rand, path string, gitOK bool, gitDir stri
 			return
 		}
 		seen[string(c.data)] = true
-		for _, e := range row.Ents {
+		ents := row.Ents
+		if row.Multi { // expected values per variable as grouped by the spec (ByKey)
+			ents = nil
+			for _, g := range row.Bykey {
+				for _, val := range g.Vs {
+					ents = append(ents, cfgEnt{K: g.K, V: val})
+				}
+			}
+		}
+		for _, e := range ents {
 			kv := cfgKV{Key: v.render(e.K)}
 			if len(e.V) == 1 && e.V[0] == "novalue" {
 				kv.NoValue = true
@@ -287,7 +330,11 @@ func c48Read(r *rep.Report, rnd *rand.Rand, path string, gitOK bool, gitDir stri
 		default:
 			// at the format level go-git has no representation for "key without value"; its boolean meaning is
 			// judged in the values part (token "novalue")
-			if ok, why := cfgSameEnts(c.got, c.want, false); !ok {
+			same := cfgSameEnts
+			if c.row.Multi {
+				same = cfgSameByKey
+			}
+			if ok, why := same(c.got, c.want, false); !ok {
 				c.class = why
 			}
 		}
@@ -318,6 +365,11 @@ func c48Read(r *rep.Report, rnd *rand.Rand, path string, gitOK bool, gitDir stri
 			sel[i] = true
 		}
 	}
+	for i, c := range cases {
+		if c.row.Multi && c.vi == 0 { // the two-header family is small: git witnesses every canonical rendering
+			sel[i] = true
+		}
+	}
 	for _, i := range rnd.Perm(len(cases)) {
 		if budget <= 0 {
 			break
@@ -345,7 +397,11 @@ func c48Read(r *rep.Report, rnd *rand.Rand, path string, gitOK bool, gitDir stri
 			if ok == c.row.Err {
 				agree = false
 			} else if ok {
-				if same, _ := cfgSameEnts(ents, c.want, true); !same {
+				cmp := cfgSameEnts
+				if c.row.Multi {
+					cmp = cfgSameByKey
+				}
+				if same, _ := cmp(ents, c.want, true); !same {
 					agree = false
 				}
 			}
